@@ -7947,6 +7947,9 @@ class Subpath:
         end = self.index_to_path_index(end)
         self._path._validate_connection(start - 1, prefer_second=True)
         self._path._validate_connection(end)
+        # The cached lengths of the path belong to the old order.
+        self._path._length = None
+        self._path._lengths = None
 
     def reverse(self):
         size = len(self)
